@@ -205,68 +205,68 @@ func runAtomicWrite(c *Ctx, r *Reporter) {
 		goto callers
 	}
 	{
-	var filename, data ssa.Value
-	for _, prm := range writer.Params {
-		if b, ok := prm.Type().Underlying().(*types.Basic); ok && b.Kind() == types.String {
-			filename = prm
-		}
-		if _, ok := prm.Type().Underlying().(*types.Slice); ok {
-			data = prm
-		}
-	}
-	tempFile := func() ssa.Value {
-		for _, ref := range *createTemp.Referrers() {
-			if ex, ok := ref.(*ssa.Extract); ok && ex.Index == 0 {
-				return ex
+		var filename, data ssa.Value
+		for _, prm := range writer.Params {
+			if b, ok := prm.Type().Underlying().(*types.Basic); ok && b.Kind() == types.String {
+				filename = prm
+			}
+			if _, ok := prm.Type().Underlying().(*types.Slice); ok {
+				data = prm
 			}
 		}
-		return nil
-	}()
-	// W2
-	okDir := false
-	if dirCall, ok := createTemp.Call.Args[0].(*ssa.Call); ok && dirCall.Call.StaticCallee() != nil && pkgFuncName(dirCall.Call.StaticCallee()) == "path/filepath.Dir" {
-		okDir = dirCall.Call.Args[0] == filename
-	}
-	r.Check(okDir, wq+"#W2:same-directory", p.Rel(instrPos(createTemp)), "the temp file is created in the directory of the target (rename cannot cross file systems)", "os.CreateTemp must get filepath.Dir(filename): a temp file elsewhere makes the final rename a non-atomic copy or fails across file systems")
-	okRen := len(rename.Call.Args) == 2 && rename.Call.Args[1] == filename
-	if okRen {
-		nameCall, ok := rename.Call.Args[0].(*ssa.Call)
-		okRen = ok && nameCall.Call.StaticCallee() != nil && pkgFuncName(nameCall.Call.StaticCallee()) == "os.File.Name" && nameCall.Call.Args[0] == tempFile
-	}
-	r.Check(okRen, wq+"#W2:rename-temp-onto-target", p.Rel(instrPos(rename)), "the written temp file is renamed onto the target", "os.Rename must move tempFile.Name() onto filename")
-	r.Check(len(write.Call.Args) == 2 && write.Call.Args[0] == tempFile && write.Call.Args[1] == data, wq+"#W3:write-data", p.Rel(instrPos(write)), "the formatted bytes are written to the temp file", "tempFile.Write must write the data parameter to the temp file")
-	// W3 order + error discipline
-	seq := []*ssa.Call{createTemp, write, closeC, rename}
-	names := []string{"CreateTemp", "Write", "Close", "Rename"}
-	for i := 0; i+1 < len(seq); i++ {
-		r.Check(nilErrGuards(seq[i], seq[i+1]), fmt.Sprintf("%s#W3:%s-ok-before-%s", wq, names[i], names[i+1]), p.Rel(instrPos(seq[i+1])), names[i+1]+" runs only after "+names[i]+" succeeded",
-			fmt.Sprintf("%s is not confined to the err == nil edge of %s: after a failed %s the target would be replaced by an incomplete temp file", names[i+1], names[i], names[i]))
-	}
-	okClose := closeC.Call.Args[0] == tempFile
-	r.Check(okClose, wq+"#W3:close-temp", p.Rel(instrPos(closeC)), "the temp file is closed before the rename", "Close must close the temp file")
-	// success return only after Rename succeeded
-	okRet := true
-	for _, ret := range returnsOf(writer) {
-		if isSuccessReturn(ret) && !nilErrGuards(rename, ret) {
-			okRet = false
+		tempFile := func() ssa.Value {
+			for _, ref := range *createTemp.Referrers() {
+				if ex, ok := ref.(*ssa.Extract); ok && ex.Index == 0 {
+					return ex
+				}
+			}
+			return nil
+		}()
+		// W2
+		okDir := false
+		if dirCall, ok := createTemp.Call.Args[0].(*ssa.Call); ok && dirCall.Call.StaticCallee() != nil && pkgFuncName(dirCall.Call.StaticCallee()) == "path/filepath.Dir" {
+			okDir = dirCall.Call.Args[0] == filename
 		}
-	}
-	r.Check(okRet, wq+"#W3:success-after-rename", wpos, "success is reported only after the rename succeeded", "writeAtomically can return nil without a successful rename")
-	// W4
-	okMode := false
-	if chmod != nil && stat != nil {
-		okMode = chmod.Call.Args[0] == tempFile && stat.Call.Args[0] == filename && valueReaches(chmod.Call.Args[1], stat, 8) &&
-			instrDominatesOrReaches(write, chmod) && reachesBlock(chmod.Block(), rename.Block()) && nilErrGuards(stat, chmod)
-		// a failed chmod must not reach rename
-		if okMode {
-			okMode = !pathFromFailingEdge(chmod, rename)
+		r.Check(okDir, wq+"#W2:same-directory", p.Rel(instrPos(createTemp)), "the temp file is created in the directory of the target (rename cannot cross file systems)", "os.CreateTemp must get filepath.Dir(filename): a temp file elsewhere makes the final rename a non-atomic copy or fails across file systems")
+		okRen := len(rename.Call.Args) == 2 && rename.Call.Args[1] == filename
+		if okRen {
+			nameCall, ok := rename.Call.Args[0].(*ssa.Call)
+			okRen = ok && nameCall.Call.StaticCallee() != nil && pkgFuncName(nameCall.Call.StaticCallee()) == "os.File.Name" && nameCall.Call.Args[0] == tempFile
 		}
-		// a failed Stat must not reach rename either: the temp file would keep the 0600 of os.CreateTemp
-		if okMode {
-			okMode = !pathFromFailingEdge(stat, rename)
+		r.Check(okRen, wq+"#W2:rename-temp-onto-target", p.Rel(instrPos(rename)), "the written temp file is renamed onto the target", "os.Rename must move tempFile.Name() onto filename")
+		r.Check(len(write.Call.Args) == 2 && write.Call.Args[0] == tempFile && write.Call.Args[1] == data, wq+"#W3:write-data", p.Rel(instrPos(write)), "the formatted bytes are written to the temp file", "tempFile.Write must write the data parameter to the temp file")
+		// W3 order + error discipline
+		seq := []*ssa.Call{createTemp, write, closeC, rename}
+		names := []string{"CreateTemp", "Write", "Close", "Rename"}
+		for i := 0; i+1 < len(seq); i++ {
+			r.Check(nilErrGuards(seq[i], seq[i+1]), fmt.Sprintf("%s#W3:%s-ok-before-%s", wq, names[i], names[i+1]), p.Rel(instrPos(seq[i+1])), names[i+1]+" runs only after "+names[i]+" succeeded",
+				fmt.Sprintf("%s is not confined to the err == nil edge of %s: after a failed %s the target would be replaced by an incomplete temp file", names[i+1], names[i], names[i]))
 		}
-	}
-	r.Check(okMode, wq+"#W4:permission-bits", wpos, "the temp file receives the target's permission bits (Stat → Chmod) before the rename", "the temp file created by os.CreateTemp has mode 0600; without a Chmod to the target's Stat().Mode().Perm() before the rename, `evy fmt -w` silently changes the file's permissions")
+		okClose := closeC.Call.Args[0] == tempFile
+		r.Check(okClose, wq+"#W3:close-temp", p.Rel(instrPos(closeC)), "the temp file is closed before the rename", "Close must close the temp file")
+		// success return only after Rename succeeded
+		okRet := true
+		for _, ret := range returnsOf(writer) {
+			if isSuccessReturn(ret) && !nilErrGuards(rename, ret) {
+				okRet = false
+			}
+		}
+		r.Check(okRet, wq+"#W3:success-after-rename", wpos, "success is reported only after the rename succeeded", "writeAtomically can return nil without a successful rename")
+		// W4
+		okMode := false
+		if chmod != nil && stat != nil {
+			okMode = chmod.Call.Args[0] == tempFile && stat.Call.Args[0] == filename && valueReaches(chmod.Call.Args[1], stat, 8) &&
+				instrDominatesOrReaches(write, chmod) && reachesBlock(chmod.Block(), rename.Block()) && nilErrGuards(stat, chmod)
+			// a failed chmod must not reach rename
+			if okMode {
+				okMode = !pathFromFailingEdge(chmod, rename)
+			}
+			// a failed Stat must not reach rename either: the temp file would keep the 0600 of os.CreateTemp
+			if okMode {
+				okMode = !pathFromFailingEdge(stat, rename)
+			}
+		}
+		r.Check(okMode, wq+"#W4:permission-bits", wpos, "the temp file receives the target's permission bits (Stat → Chmod) before the rename", "the temp file created by os.CreateTemp has mode 0600; without a Chmod to the target's Stat().Mode().Perm() before the rename, `evy fmt -w` silently changes the file's permissions")
 	}
 callers:
 	// W5: callers
